@@ -6,7 +6,8 @@ REFRESH = [k for k in gen.FORMATS if k not in ("df19", "df24")]
 
 class C12(PropBase):
     id = "C12"
-    lean_modules = ["SqModel.Props.C12"]
+    lean_modules = ["SqModel.Props.C12", "SqModel.Proofs.BridgePlane"]
+    extractors = ["trans"]
     rule = ("schedules of reader runs (segments of 1..40 lines) and silences for 2-5 aircraft; silence lengths delete_after-0.5, "
             "+0.5, 0.5 and 10x delete_after (virtual clock: the time stamps of all rows are shifted back between runs); "
             "delete_after in {1,5,60,600}; every format as the refreshing frame; -U on/off; a quarter of the schedules with the table display on and a refresh after every frame. After each run: key set and "
